@@ -213,8 +213,51 @@ fn run_one<A: Alloc, const N: usize>(seed: u64, replay: Option<Vec<u8>>) -> (sch
     (outcome, viol, cfgkey, refill)
 }
 
+/// free-running threads (no scheduler): a sole shared handle is cloned through `&` by several threads at once -- the
+/// reference counter must not lose an update (an atomicity below the granularity of the scheduled scenario)
+fn free_run<A: Alloc>(iters: u32, seed: u64) -> Vec<(String, String)> {
+    let alloc: &'static A = Box::leak(Box::new(A::new()));
+    let mut viol = vec![];
+    let mut rng = Rng::new(seed);
+    for it in 0..iters {
+        let v = 1 + (it % 4000);
+        DROPS[v as usize].store(0, SeqCst);
+        let original = match OgreArc::new_with(|slot: &mut Tracked| unsafe { std::ptr::write(slot, Tracked { v }) }, alloc) { Some(a) => a, None => { viol.push(("pool_exhausted".into(), format!("iteration {it}: the pool did not get its slot back"))); break } };
+        let nthreads = 2 + (rng.below(2) as usize);
+        let barrier = std::sync::Barrier::new(nthreads);
+        let clones: Vec<OgreArc<Tracked, A>> = std::thread::scope(|sc| {
+            let hs: Vec<_> = (0..nthreads).map(|_| sc.spawn(|| { barrier.wait(); original.clone() })).collect();
+            hs.into_iter().map(|h| h.join().unwrap()).collect()
+        });
+        let count = original.references_count();
+        if count as usize != 1 + nthreads { viol.push(("lost_refcount_update".into(), format!("iteration {it}: {} live shared handles (1 + {nthreads} concurrent clones of a sole handle) but references_count() = {count}", 1 + nthreads))); }
+        drop(clones);
+        if DROPS[v as usize].load(SeqCst) != 0 { viol.push(("destroyed_while_held".into(), format!("iteration {it}: the value was destroyed while the original handle is still alive"))); std::mem::forget(original); if viol.len() > 4 { break } continue }
+        drop(original);
+        if DROPS[v as usize].load(SeqCst) != 1 { viol.push(("destructor_count".into(), format!("iteration {it}: destructor ran {} times after the last handle was dropped", DROPS[v as usize].load(SeqCst)))); }
+        if viol.len() > 4 { break }
+    }
+    viol
+}
+
 fn main() {
     let a = Args::parse();
+    if a.get("sub", "") == "freerun" {
+        let mut rep = Report::new("handles/freerun");
+        let iters = a.num("runs", 3000) as u32;
+        let seed = a.num("seed", 1);
+        let mut viol = free_run::<AllocatorAtomicArray<Tracked, 4>>(iters, seed);
+        viol.extend(free_run::<AllocatorFullSyncArray<Tracked, 4>>(iters, seed + 1));
+        rep.add_run(&[format!("freerun {iters} iterations x 2 allocators")], true, "freerun", "Completed");
+        rep.add_run(&[format!("freerun seed {seed}")], true, "freerun", "Completed");
+        rep.runs = 2 * iters as u64;
+        for (k, d) in viol {
+            let path = write_replay(&a.get("replay_dir", ""), &format!("{}-handles-freerun-seed{seed}-{k}", a.get("prop", "C")), &[format!("cmd handles sub=freerun runs={iters} seed={seed}"), format!("violation {k}: {d}")], &[]);
+            rep.violations.push(Violation { run: 0, seed, kind: k, detail: d, replay: path });
+        }
+        rep.print();
+        return
+    }
     let kind = a.get("kind", "atomic");
     let seed0 = a.num("seed", 1);
     let runs = a.num("runs", 100);
